@@ -22,7 +22,8 @@ TDropDatabase == Ev("DropDatabase") /\ DropDatabase(Line.db)
 \* the start index and the replica shift are random in the code: some pair must explain the result
 TProcess == /\ Ev("Process") /\ pending # << >> /\ Head(pending).t = Line.t
             /\ LET n == IF repoLive = {} THEN 1 ELSE Cardinality(repoLive) IN
-               \E st \in 0..(n - 1), sh \in 0..(n - 1) : Process(st, sh)
+               \E st \in 0..(n - 1), sh \in 0..(n - 1) :
+                  ProcessF(st, sh, IF "fault" \in DOMAIN Line THEN Line.fault ELSE "none")
 
 \* JSON: {"db": {"<shard>": [replicas]}} with shard ids as strings "0","1",..
 ShardKey(sid) == ToString(sid)
